@@ -194,16 +194,20 @@ class C11(Check):
 
     def generate(self, rng, tier):
         cfg = gen_config(rng, avoid=("mmp",))
+        if rng.chance(0.4):
+            cfg["initial"] = rng.choice(["poison", "random"])
         n = rng.weighted([(1, 4), (2, 4), (3, 3), (4, 1), (5, 1)])
         reqs = [rng.choice(sorted(REQUESTS)) for _ in range(n)]
         return {"cfg": cfg, "world_seed": rng.u64(), "reqs": reqs, "req_seed": rng.u64(),
-                "clock": rng.weighted([("advance", 6), ("backwards", 2), ("far", 2)]), "scale": rng.choice([0.6, 1.0, 1.5])}
+                "clock": rng.weighted([("advance", 6), ("backwards", 2), ("far", 2)]), "scale": rng.choice([0.6, 1.0, 1.5]),
+                "deep": rng.chance(0.35)}
 
     def execute(self, spec, wd):
         o = Outcome()
         rng = Rng(spec["world_seed"])
         cfg = spec["cfg"]
-        w = build_world(rng, wd, cfg=dict(cfg), scale=spec["scale"], big_dir=rng.weighted([(0, 3), (rng.range(40, 250), 2)]))
+        w = build_world(rng, wd, cfg=dict(cfg), scale=spec["scale"], big_dir=rng.weighted([(0, 3), (rng.range(40, 250), 2)]),
+                        deep_extents=spec.get("deep", False))
         if w["rejected"]:
             o.stats["world.rejected"] += 1
             o.trace = "rejected"
